@@ -95,10 +95,46 @@ def gen_box(rng, kind):
 KINDS = ["continuous", "shifted", "steps", "integer", "degenerate", "constant", "mixed", "thin", "steps", "integer", "tiny", "extreme"]
 
 
+def ctor_boxes(rng):
+    """p-boxes obtained from every constructor that accepts `steps=`, called with a non-default value; the bounds the
+    constructor produced (200 steps after its own interpolation) are what the queries are checked against"""
+    from pyuncertainnumber.pba import pbox_free as pf, pbox_parametric as pp
+    k = lambda: rng.choice([10, 25, 50, 100, 199])
+    a, b = rng.randint(-5, 2), rng.randint(3, 9)
+    mk = [("uniform", lambda: pp.uniform([a, a + 1], [b, b + 2], steps=k())),
+          ("uniform-precise", lambda: pp.uniform(a, b, steps=k())),
+          ("min_max_mean", lambda: pf.min_max_mean(a, b, (a + b) / 2 + 0.5, steps=k())),
+          ("min_max_median", lambda: pf.min_max_median(a, b, (a + b) / 2, steps=k())),
+          ("min_max_mode", lambda: pf.min_max_mode(a, b, (a + b) / 2, steps=k())),
+          ("min_mean", lambda: pf.min_mean(0, 2 + rng.random(), steps=k())),
+          ("max_mean", lambda: pf.max_mean(b, b - 2, steps=k())),
+          ("mean_std", lambda: pf.mean_std(1.0, 2.0, steps=k()))]
+    out = []
+    for name, f in mk:
+        try:
+            P = f()
+            P = getattr(P, "construct", P) if not hasattr(P, "left") else P
+            left, right = [float(x) for x in P.left], [float(x) for x in P.right]
+            wf = (len(left) == N == len(right) and all(math.isfinite(x) for x in left + right)
+                  and all(x <= y for x, y in zip(left, left[1:])) and all(x <= y for x, y in zip(right, right[1:]))
+                  and all(x <= y for x, y in zip(left, right)))
+            if wf:
+                out.append(("ctor:" + name, left, right, P))
+        except BaseException:  # noqa  (a constructor that does not take this call is outside this property)
+            pass
+    return out
+
+
 def build_box(Staircase, rng, left, right):
     """the same bounds handed over in different representations (float arrays, python lists, tuples, int-dtype arrays)"""
     ints = all(float(x).is_integer() and abs(x) < 2 ** 40 for x in left + right)
-    mode = rng.choice(["float-array", "list", "tuple-ish", "int-array", "int-list"] if ints else ["float-array", "list", "float-array"])
+    mode = rng.choice((["float-array", "list", "tuple-ish", "int-array", "int-list"] if ints else ["float-array", "list"])
+                      + ["steps-kw", "steps-kw", "leaf-steps-kw"])
+    if mode == "steps-kw":            # a non-default `steps=` keyword: the bounds stay 200 long, the grid must too
+        return mode, Staircase(left=np.array(left), right=np.array(right), steps=rng.choice([10, 50, 100, 199, 201, 400]))
+    if mode == "leaf-steps-kw":
+        from pyuncertainnumber.pba.pbox_abc import Leaf
+        return mode, Leaf(left=np.array(left), right=np.array(right), steps=rng.choice([10, 50, 100]))
     if mode == "float-array":
         return mode, Staircase(left=np.array(left), right=np.array(right))
     if mode == "list":
@@ -273,6 +309,20 @@ def gen_queries(rng, Gf, left, right, tier_scale):
         Q.append(("cut", a))
     Q.append(("cut", rng.choice([0, 1, np.int64(0), np.int64(1), True])))          # levels given as integers
     Q.append(("cuts", rng.choice([[0, 1], [1, 0, 1], [0, 0.5, 1]])))
+    # level arrays whose length is exactly the native step count (and one off): random, constant, unsorted
+    m = rng.choice([N, N, N - 1, N + 1])
+    form = rng.choice(["random", "constant", "reversed-grid", "shuffled-grid"])
+    if form == "random":
+        arr = [rng.random() for _ in range(m)]
+    elif form == "constant":
+        arr = [rng.choice([0.95, 0.5, 0.05, rng.random()])] * m
+    elif form == "reversed-grid":
+        arr = (Gf[::-1] + [0.5])[:m] if m > N else Gf[::-1][:m]
+    else:
+        arr = list(Gf) + ([0.5] if m > N else [])
+        arr = arr[:m]
+        rng.shuffle(arr)
+    Q.append(("cuts", arr))
     if xmids:
         Q.append(("cut", rng.choice(xmids)))
     Q.append(("cuts", [rng.choice(lv + Gf[:3] + mids[:3] + xmids) for _ in range(rng.randint(1, 12))]))
@@ -342,10 +392,15 @@ def run(ctx: core.Check):
     rng = ctx.rng
     boxes = []
     nb = ctx.scale(98, 1000)
+    prebuilt = {}
     for b in range(nb):
         kind = KINDS[b % len(KINDS)]
         left, right = gen_box(rng, kind)
         boxes.append((kind, left, right))
+    for _ in range(ctx.scale(2, 20)):
+        for name, left, right, P in ctor_boxes(rng):
+            prebuilt[len(boxes)] = P
+            boxes.append((name, left, right))
     cases = []
     for bi, (kind, left, right) in enumerate(boxes):
         for op, arg in gen_queries(rng, Gf, left, right, 1):
@@ -395,7 +450,7 @@ def run(ctx: core.Check):
         kind, left, right = boxes[bi]
         if bi not in objs:
             try:
-                mode, P = build_box(Staircase, rng_build, left, right)
+                mode, P = ("constructor-with-steps", prebuilt[bi]) if bi in prebuilt else build_box(Staircase, rng_build, left, right)
                 ctx.bump("built-from:" + mode)
                 if [float(x) for x in P.left] != left or [float(x) for x in P.right] != right:
                     raise ValueError("constructor changed the bounds")
